@@ -21,6 +21,7 @@ import (
 	lcontext "github.com/ysugimoto/falco/v2/linter/context"
 	"github.com/ysugimoto/falco/v2/parser"
 	"github.com/ysugimoto/falco/v2/resolver"
+	"github.com/ysugimoto/falco/v2/snippet"
 )
 
 func ruleName(r linter.Rule) string {
@@ -36,9 +37,29 @@ func lintConf() *config.LinterConfig {
 }
 
 func lintIgnore(args string) string {
-	src, err := unhx(strings.TrimSpace(args))
+	f := strings.Fields(args)
+	if len(f) == 0 {
+		return "badrequest"
+	}
+	src, err := unhx(f[0])
 	if err != nil {
 		return "badrequest"
+	}
+	// scoped (Fastly managed) snippets: scoped:<scope>:<name>:<hex data>, embedded at the #FASTLY <scope> macro
+	var snippets *snippet.Snippets
+	for _, a := range f[1:] {
+		p := strings.SplitN(a, ":", 4)
+		if len(p) != 4 || p[0] != "scoped" {
+			return "badrequest"
+		}
+		data, err := unhx(p[3])
+		if err != nil {
+			return "badrequest"
+		}
+		if snippets == nil {
+			snippets = &snippet.Snippets{ScopedSnippets: map[string][]snippet.Item{}}
+		}
+		snippets.ScopedSnippets[p[1]] = append(snippets.ScopedSnippets[p[1]], snippet.Item{Name: p[2], Data: string(data)})
 	}
 	lx := lexer.NewFromString(string(src), lexer.WithFile("main.vcl"))
 	vcl, err := parser.New(lx).ParseVCLOrSnippet()
@@ -46,7 +67,11 @@ func lintIgnore(args string) string {
 		return "parseerr"
 	}
 	rslv := resolver.NewStaticResolver("main.vcl", string(src))
-	ctx := lcontext.New(lcontext.WithResolver(rslv))
+	opts := []lcontext.Option{lcontext.WithResolver(rslv)}
+	if snippets != nil {
+		opts = append(opts, lcontext.WithSnippets(snippets))
+	}
+	ctx := lcontext.New(opts...)
 	lt := linter.New(lintConf())
 	lt.Lint(vcl, ctx)
 	if lt.FatalError != nil {
@@ -54,7 +79,11 @@ func lintIgnore(args string) string {
 	}
 	out := make([]string, 0, len(lt.Errors))
 	for _, e := range lt.Errors {
-		out = append(out, fmt.Sprintf("%s@%d", ruleName(e.Rule), e.Token.Line))
+		if e.Token.File == "" || e.Token.File == "main.vcl" {
+			out = append(out, fmt.Sprintf("%s@%d", ruleName(e.Rule), e.Token.Line))
+		} else {
+			out = append(out, fmt.Sprintf("%s@%s#%d", ruleName(e.Rule), e.Token.File, e.Token.Line))
+		}
 	}
 	return strings.TrimSpace("ok " + strings.Join(out, " "))
 }
